@@ -23,7 +23,7 @@ ASSUMPTIONS = [
 TOTALS = ["eager", "lazy", "reflect", "normalize", "sequential", "moment_matching"]
 ALPHABET = TOTALS + ["memoize", "memoize_shared", "Memoize_lazy", "user", "user2", "tape", "tape_shared", "montecarlo", "montecarlo_shared"]
 QUICK_ALPHABET = ["eager", "lazy", "normalize", "sequential", "memoize", "memoize_shared", "Memoize_lazy", "user", "tape", "tape_shared", "montecarlo_shared", "reflect"]
-WORKS = ["subs", "reduce", "optimizer", "reinterpret", "adjoint", "einsum", "inner_memoize", "sample", "lambda", "user_term", "mc_integrate"]
+WORKS = ["subs", "reduce", "optimizer", "reinterpret", "adjoint", "einsum", "inner_memoize", "sample", "lambda", "user_term", "mc_integrate", "affine", "compile", "sum_product", "gaussian"]
 EXC_TYPES = ["MemoryError", "RecursionError", "FloatingPointError", "NotImplementedError", "ValueError"]
 
 ###############################################################################
@@ -487,7 +487,9 @@ class Run:
                 e = (x * y).reduce(ops.add, frozenset(["i", "j", "k"]))
             z = f.adjoint.adjoint(ops.add, ops.mul, e)
         elif name == "einsum":
-            z = f.einsum.einsum("ab,bc->ac", x, y)
+            xa = env.fresh_tensor(("a", "b"), (2, 3))
+            yb = env.fresh_tensor(("b", "c"), (3, 2))
+            z = f.einsum.einsum("ab,bc->ac", xa, yb)
         elif name == "inner_memoize":
             with f.interpretations.memoize():
                 z = (x * y).reduce(ops.add, "j")
@@ -500,6 +502,20 @@ class Run:
         elif name == "user_term":
             z = env.UserTerm(x)
             z = -f.Variable("q", f.Real)
+        elif name == "affine":
+            xv = f.Variable("xa", f.Real)
+            z = f.affine.extract_affine(x(j=0) * xv + y(k=1)(j=1))
+            z = f.affine.affine_inputs(x * xv)
+        elif name == "compile":
+            with f.interpretations.lazy:
+                e = (f.Variable("xc", f.Reals[3]) * f.Tensor(env.np.arange(3.0))).sum()
+            z = f.compiler.compile_funsor(e)
+        elif name == "sum_product":
+            z = f.sum_product.sum_product(ops.logaddexp, ops.add, [x, y], frozenset(["i", "j", "k"]), frozenset())
+        elif name == "gaussian":
+            g = f.testing.random_gaussian(f.testing.OrderedDict(i=f.Bint[2], gx=f.Real, gy=f.Reals[2]))
+            z = (g + x).reduce(ops.logaddexp, "gx")
+            z = g(gx=f.Variable("gz", f.Real) * 2.0)
         elif name == "mc_integrate":
             lm = x - x.reduce(ops.logaddexp, "j")
             z = f.Integrate(lm, y, frozenset([f.Variable("j", f.Bint[3])]))
